@@ -147,8 +147,9 @@ def joint_reaches(join, hw, theta):
     return bevel, miter * 1.05               # SMOOTH: a Hobby curve between the bevel chord and the miter point
 
 
-def apply_caps(m, hw_start, hw_end, el):
-    """append the two caps (and the pieces of positive extensions) to a model whose pieces run from start to end"""
+def apply_caps(m, hw_start, hw_end, el, tangents=None):
+    """append the two caps (and the pieces of positive extensions) to a model whose pieces run from start to end.
+    tangents: optional exact unit tangents (forward direction) at the start and at the end of a densified curve"""
     hw = [hw_start, hw_end]
     # caps
     end = el["end"]
@@ -157,6 +158,8 @@ def apply_caps(m, hw_start, hw_end, el):
         h = hw[0] if which == 0 else hw[-1]
         E = piece[0] if which == 0 else piece[1]
         t = unit((piece[1][0] - piece[0][0], piece[1][1] - piece[0][1]))
+        if tangents is not None and tangents[which] is not None:
+            t = tangents[which]
         outward = (-t[0], -t[1]) if which == 0 else t
         ext = 0.0
         if end == E_HALF:
